@@ -164,13 +164,13 @@ Proof.
   repeat (apply andb_true_iff in Hsp; destruct Hsp as [?H Hsp]).
   repeat match goal with H : negb _ = true |- _ => apply negb_true_iff in H end.
   unfold dispatch_command.
-  set (s0 := if mem_name (upper nm) write_commands then log_aof_in s dbi (FBulk nm :: rest) else s).
-  assert (Hd : get_db s0 dbi = get_db s dbi) by (unfold s0; destruct (mem_name (upper nm) write_commands); [unfold log_aof_in; destruct (same_db _ _)|]; reflexivity).
-  assert (Hc : s_conns s0 = s_conns s) by (unfold s0; destruct (mem_name (upper nm) write_commands); [unfold log_aof_in; destruct (same_db _ _)|]; reflexivity).
-  assert (Hp : s_password s0 = s_password s) by (unfold s0; destruct (mem_name (upper nm) write_commands); [unfold log_aof_in; destruct (same_db _ _)|]; reflexivity).
-  assert (Hl : s_dbs s0 = s_dbs s) by (unfold s0; destruct (mem_name (upper nm) write_commands); [unfold log_aof_in; destruct (same_db _ _)|]; reflexivity).
+  set (s0 := if logs_before (upper nm) (FBulk nm :: rest) then log_aof_in s dbi (FBulk nm :: rest) else s).
+  assert (Hd : get_db s0 dbi = get_db s dbi) by (unfold s0; destruct (logs_before (upper nm) (FBulk nm :: rest)); [unfold log_aof_in; destruct (same_db _ _)|]; reflexivity).
+  assert (Hc : s_conns s0 = s_conns s) by (unfold s0; destruct (logs_before (upper nm) (FBulk nm :: rest)); [unfold log_aof_in; destruct (same_db _ _)|]; reflexivity).
+  assert (Hp : s_password s0 = s_password s) by (unfold s0; destruct (logs_before (upper nm) (FBulk nm :: rest)); [unfold log_aof_in; destruct (same_db _ _)|]; reflexivity).
+  assert (Hl : s_dbs s0 = s_dbs s) by (unfold s0; destruct (logs_before (upper nm) (FBulk nm :: rest)); [unfold log_aof_in; destruct (same_db _ _)|]; reflexivity).
   rewrite H, H0, H1, H2, H3, H4, H5, H6. rewrite Hd, He.
-  eexists. split; [reflexivity|]. cbn [set_trk set_db s_conns s_password s_dbs]. rewrite Hl. repeat split; assumption.
+  eexists. split; [reflexivity|]. cbn [log_after set_trk set_db s_conns s_password s_dbs]. rewrite Hl. repeat split; assumption.
 Qed.
 Lemma nc_via_exec_db now s c dbi nm rest o r d' :
   NOEXPd (get_db s dbi) ->
@@ -487,11 +487,11 @@ Proof.
   repeat (apply andb_true_iff in Hsp; destruct Hsp as [?H Hsp]).
   repeat match goal with H : negb _ = true |- _ => apply negb_true_iff in H end.
   unfold dispatch_command.
-  set (s0 := if mem_name (upper nm) write_commands then log_aof_in s dbi (FBulk nm :: rest) else s).
-  assert (Hd : get_db s0 dbi = get_db s dbi) by (unfold s0; destruct (mem_name (upper nm) write_commands); [unfold log_aof_in; destruct (same_db _ _)|]; reflexivity).
-  assert (Hc : s_conns s0 = s_conns s) by (unfold s0; destruct (mem_name (upper nm) write_commands); [unfold log_aof_in; destruct (same_db _ _)|]; reflexivity).
-  assert (Hp : s_password s0 = s_password s) by (unfold s0; destruct (mem_name (upper nm) write_commands); [unfold log_aof_in; destruct (same_db _ _)|]; reflexivity).
-  assert (Hl : s_dbs s0 = s_dbs s) by (unfold s0; destruct (mem_name (upper nm) write_commands); [unfold log_aof_in; destruct (same_db _ _)|]; reflexivity).
+  set (s0 := if logs_before (upper nm) (FBulk nm :: rest) then log_aof_in s dbi (FBulk nm :: rest) else s).
+  assert (Hd : get_db s0 dbi = get_db s dbi) by (unfold s0; destruct (logs_before (upper nm) (FBulk nm :: rest)); [unfold log_aof_in; destruct (same_db _ _)|]; reflexivity).
+  assert (Hc : s_conns s0 = s_conns s) by (unfold s0; destruct (logs_before (upper nm) (FBulk nm :: rest)); [unfold log_aof_in; destruct (same_db _ _)|]; reflexivity).
+  assert (Hp : s_password s0 = s_password s) by (unfold s0; destruct (logs_before (upper nm) (FBulk nm :: rest)); [unfold log_aof_in; destruct (same_db _ _)|]; reflexivity).
+  assert (Hl : s_dbs s0 = s_dbs s) by (unfold s0; destruct (logs_before (upper nm) (FBulk nm :: rest)); [unfold log_aof_in; destruct (same_db _ _)|]; reflexivity).
   rewrite H, H0, H1, H2, H3, H4, H5, H6. rewrite Hd, He.
   eexists. exists s0. split; [reflexivity|]. repeat split; assumption.
 Qed.
@@ -520,7 +520,7 @@ Lemma nc_ping now s c dbi nm rest o r s' :
 Proof.
   intros HN Hp H. destruct (normal_command_noexp now s c dbi nm rest o HN) as (s1 & E & D1 & D2 & D3).
   rewrite E in H. unfold dispatch_command in H. rewrite Hp in H.
-  destruct (mem_name (upper nm) write_commands); [unfold log_aof_in in H; destruct (same_db _ _)|]; injection H as _ <-;
+  destruct (logs_before (upper nm) (FBulk nm :: rest)); [unfold log_aof_in in H; destruct (same_db _ _)|]; injection H as _ <-;
     cbn [s_dbs s_conns s_password]; repeat split; assumption.
 Qed.
 Lemma dc_select now s c dbi nm rest o r s' :
@@ -533,10 +533,10 @@ Lemma dc_select now s c dbi nm rest o r s' :
     exists cn', zlookup c (s_conns s') = Some cn' /\ c_db cn' = next_db (c_db cn) (FBulk nm :: rest) r).
 Proof.
   intros H1 H2 H3 H. unfold dispatch_command in H. rewrite H1, H2, H3 in H.
-  set (s0 := if mem_name (upper nm) write_commands then log_aof_in s dbi (FBulk nm :: rest) else s) in *.
-  assert (Hc : s_conns s0 = s_conns s) by (unfold s0; destruct (mem_name (upper nm) write_commands); [unfold log_aof_in; destruct (same_db _ _)|]; reflexivity).
-  assert (Hp : s_password s0 = s_password s) by (unfold s0; destruct (mem_name (upper nm) write_commands); [unfold log_aof_in; destruct (same_db _ _)|]; reflexivity).
-  assert (Hl : s_dbs s0 = s_dbs s) by (unfold s0; destruct (mem_name (upper nm) write_commands); [unfold log_aof_in; destruct (same_db _ _)|]; reflexivity).
+  set (s0 := if logs_before (upper nm) (FBulk nm :: rest) then log_aof_in s dbi (FBulk nm :: rest) else s) in *.
+  assert (Hc : s_conns s0 = s_conns s) by (unfold s0; destruct (logs_before (upper nm) (FBulk nm :: rest)); [unfold log_aof_in; destruct (same_db _ _)|]; reflexivity).
+  assert (Hp : s_password s0 = s_password s) by (unfold s0; destruct (logs_before (upper nm) (FBulk nm :: rest)); [unfold log_aof_in; destruct (same_db _ _)|]; reflexivity).
+  assert (Hl : s_dbs s0 = s_dbs s) by (unfold s0; destruct (logs_before (upper nm) (FBulk nm :: rest)); [unfold log_aof_in; destruct (same_db _ _)|]; reflexivity).
   assert (Keep : forall c' cn', zlookup c' (s_conns s0) = Some cn' ->
             exists cn, zlookup c' (s_conns s) = Some cn /\ c_queue cn' = c_queue cn /\ (c_db cn' = c_db cn \/ 0 <= c_db cn' < 16)).
   { intros c' cn' Hc'. rewrite Hc in Hc'. exists cn'. split; [exact Hc'|]. split; [reflexivity|left; reflexivity]. }
@@ -753,7 +753,9 @@ Proof.
   - injection H as <- <- <-. destruct r; try contradiction.
     destruct l as [|q1 l1]; try contradiction. destruct q1; try contradiction.
     destruct l1 as [|q2 l2]; try contradiction. destruct q2; try contradiction. destruct l2; try contradiction.
-    apply Hset; try reflexivity; [intros e0 [<-|[]]; reflexivity|exact A3].
+    cbn [log_served].
+    match goal with |- cinv (log_pop ?sx ?db ?lf ?kk) /\ _ => destruct (log_pop_rest sx db lf kk) as (L1 & L2 & L3 & _) end.
+    apply Hset; [rewrite L1; reflexivity|rewrite L2; reflexivity|rewrite L3; reflexivity|intros e0 [<-|[]]; reflexivity|exact A3].
   - destruct (c =? 0); injection H as <- <- <-; (apply Hset; try reflexivity; [apply in_db_nil|]; intros k' x; rewrite <- (A3 k' x); reflexivity).
 Qed.
 
@@ -810,7 +812,7 @@ Proof.
     destruct (len (FBulk b0 :: rest) <? 3); [injection E as _ <- _; reflexivity|].
     destruct (timeout_of _ oms); [|injection E as _ <- _; reflexivity].
     destruct (all_bulks _); [|injection E as _ <- _; reflexivity].
-    destruct (fast_path left _ l) as [[r|] d']; injection E as _ <- _; reflexivity. }
+    destruct (fast_path left _ l) as [[r|] d']; injection E as _ <- _; rewrite ?(proj1 (proj2 (log_served_rest _ _ _ _))); reflexivity. }
   destruct (beq (upper b0) (bs "BLPOP")); [apply (HB true); exact H|].
   destruct (beq (upper b0) (bs "BRPOP")); [apply (HB false); exact H|].
   apply (NC (fun r s'0 => let b1 := notify_after_push b dbi (upper b0) (FBulk b0 :: rest) r in
@@ -1076,6 +1078,12 @@ Proof.
   rewrite (nth_list_set_fun (fun d => occm x (lst d k)) (s_dbs s) dX i (Z.to_nat db) (H k x)). reflexivity.
 Qed.
 
+(** the AOF record of a served pop (293eff6) changes neither the counted lists nor the invariant *)
+Lemma cinv_log_pop s dbi lf k : cinv s -> cinv (log_pop s dbi lf k).
+Proof. intros H. destruct (log_pop_rest s dbi lf k) as (L1 & L2 & L3 & _). eapply cinv_same_dbs; eauto. Qed.
+Lemma delta_log_pop s0 s dbi lf k a r : delta s0 s a r -> delta s0 (log_pop s dbi lf k) a r.
+Proof. intros H db kk x Hd. specialize (H db kk x Hd). rewrite !list_at_lst in *. rewrite get_db_log_pop. exact H. Qed.
+
 Lemma wake_client_cons now s b u W :
   agreeW b (u :: W) -> cinv s -> BR b ->
   b_crashed (snd (wake_client now s b u)) = b_crashed b /\ cinv (fst (wake_client now s b u)) /\
@@ -1096,16 +1104,16 @@ Proof.
   - destruct (U st eq_refl) as (U1 & U2 & U3). pose proof (HB _ _ Eb) as Hr. rewrite <- U1 in Hr.
     destruct r; try contradiction; cbn [fst snd].
     + (* an element: delivered *)
-      split; [apply cinv_set_db_direct; assumption|]. right. exists st, (u_key u), b0.
-      split; [reflexivity|]. split; [reflexivity|]. split; [reflexivity|]. rewrite <- U1.
+      split; [apply cinv_log_pop, cinv_set_db_direct; assumption|]. right. exists st, (u_key u), b0.
+      split; [reflexivity|]. split; [reflexivity|]. split; [reflexivity|]. rewrite <- U1. apply delta_log_pop.
       apply (delta_one_db s (set_db s (u_db u) d') (u_db u) d' [] [(u_db u, u_key u, b0)] (ci_len s CI) Hr eq_refl (in_db_nil _)).
       * intros e0 [<-|[]]. reflexivity.
       * intros k x. rewrite ecount_nil, P3. lia.
     + (* nothing there: the other keys of the call, else registered again *)
       destruct (recheck (bl_left st) d' (bl_keys st)) as [[[k v]|] d''] eqn:Er;
         destruct (recheck_delta (bl_left st) (u_db u) _ _ _ _ P1 Er) as (Q1 & Q3); cbn [fst snd].
-      * split; [apply cinv_set_db_direct; assumption|]. right. exists st, k, v.
-        split; [reflexivity|]. split; [reflexivity|]. split; [reflexivity|]. rewrite <- U1.
+      * split; [apply cinv_log_pop, cinv_set_db_direct; assumption|]. right. exists st, k, v.
+        split; [reflexivity|]. split; [reflexivity|]. split; [reflexivity|]. rewrite <- U1. apply delta_log_pop.
         apply (delta_one_db s (set_db s (u_db u) d'') (u_db u) d'' [] [(u_db u, k, v)] (ci_len s CI) Hr eq_refl (in_db_nil _)).
         -- intros e0 [<-|[]]. reflexivity.
         -- intros k' x. specialize (Q3 k' x). specialize (P3 k' x). rewrite ecount_nil in *. lia.
